@@ -66,7 +66,7 @@ Print Assumptions C09_grace_not_early.
 (* A child that exits while the unit is merely running is not signalled by that step. *)
 Theorem C09_fast_untouched :
   forall tbl cfg s ok, ph s = PRunning ->
-  ucore tbl cfg s (AChildExit ok) = Ok (with_ph (with_reaped s true ok) PExiting, []).
+  ucore tbl cfg s (AChildExit ok) = Ok (with_ph (with_reaped s true ok) (after_exit s), []).
 Proof. exact child_exit_running. Qed.
 Print Assumptions C09_fast_untouched.
 
